@@ -506,3 +506,11 @@ Example html_svg_quote_fixed :
   exists l', next no_tmpl (new_lexer d) = Ok (SvgT, Some (mkSl 0 31), l') /\ len d = 34.
 Proof. eexists. split; vm_compute; reflexivity. Qed.
 
+
+(* ---- finding c09-svg:comment-endtag: an end tag of the element inside a comment ends the SVG token -------------------- *)
+(* <svg><!-- </svg> --><g/></svg>x : SVG token "<svg><!-- </svg>" (16 bytes), then Text " -->" *)
+Lemma html_svg_comment_endtag_refuted_proof :
+  let d := [60;115;118;103;62;60;33;45;45;32;60;47;115;118;103;62;32;45;45;62;60;103;47;62;60;47;115;118;103;62;120] in
+  exists tr, run no_tmpl 2 (new_lexer d) = Ok tr /\
+    map (fun r => (fst (fst r), snd (fst r))) tr = [(SvgT, Some (mkSl 0 16)); (TextT, Some (mkSl 16 4))] /\ len d = 31.
+Proof. eexists. split; [vm_compute; reflexivity|split; reflexivity]. Qed.
